@@ -200,6 +200,8 @@ class Runner:
             return sc.Stairs(initial_value=self.nanv(init), closed=closed)
         if route == "from_values" or (anynan and route not in ("arith", "maskroute")):
             ser = pd.Series([self.nanv(v) for _, v in rows], index=[self.dom.to(k) for k, _ in rows], dtype=float)
+            if self.fl.get("valdtype") == "int" and not anynan and all(F(v).denominator == 1 for _, v in rows):
+                ser = ser.astype("int64")       # integer-typed step VALUES (the initial value may still be fractional)
             if self.dom.name == "int":
                 ser.index = ser.index.astype("int64")
             if self.dom.name == "dts":
